@@ -677,7 +677,11 @@ class Translator:
                 if isinstance(t, ast.Subscript):
                     if not isinstance(t.value, ast.Name):
                         raise Unsupported("assignment into a compound object")
-                    if isinstance(t.slice, ast.Slice):
+                    if is_full_slice(t.slice):
+                        # x[:] = e: every element of the (fresh) array x is overwritten (builtin "fill[:]")
+                        out.append("SAssign %s (ECall %s %s)" % (lst([cstr(t.value.id)]), cstr("fill[:]"),
+                                                                 lst(["(EVar %s)" % cstr(t.value.id), self.expr(s.value)])))
+                    elif isinstance(t.slice, ast.Slice):
                         sl = t.slice
                         if sl.lower is not None or sl.step is not None or sl.upper is None or int_const(sl.upper) < 0:
                             raise Unsupported("slice assignment form")
@@ -757,6 +761,10 @@ class Translator:
             else:
                 raise Unsupported(type(s).__name__)
         return lst(out)
+
+
+def is_full_slice(sl):
+    return isinstance(sl, ast.Slice) and sl.lower is None and sl.upper is None and sl.step is None
 
 
 def store_path(t):
@@ -981,7 +989,10 @@ class Fresh:
                         raise Unsupported("assignment into a compound object")
                     x = t.value.id
                     self.drop(state, esc)
-                    self.need(state, x, ("list", "array", "dict", "frame"), frozen, "item assignment")
+                    if is_full_slice(t.slice):
+                        self.need(state, x, ("array",), frozen, "x[:] = ..")    # on a list it would replace the contents
+                    else:
+                        self.need(state, x, ("list", "array", "dict", "frame"), frozen, "item assignment")
                 else:
                     self.drop(state, esc)
                     names = target_names(t)
@@ -1070,6 +1081,79 @@ class Fresh:
                 pass
             else:
                 raise Unsupported(type(s).__name__)
+
+
+# ---------------------------------------------------------------------------------------------------
+# Out-parameters: `def f(.., p): p[:] = ..; ..; return p` mutates the array its caller passes.  PyLite
+# observes a function through its result only and models the mutation by rebinding p, which is faithful
+# when (i) inside f nothing else reaches the object (no other parameter, no global) and (ii) the caller
+# cannot see the old object afterwards.  Both hold when EVERY use of f in the package is a statement
+# `x = f(.., x, ..)` in f's own module, where x is passed in p's position, occurs in no other argument, and
+# is, at that statement, a provably fresh un-escaped array of the calling function (Fresh, kind "array").
+# Then p starts as a fresh array in f's own freshness analysis.  Any other use of the name f anywhere in
+# the package (another module importing it, f passed as a value, keywords, *args) refuses the function.
+def package_root(path):
+    d = os.path.dirname(os.path.abspath(path))
+    while os.path.exists(os.path.join(os.path.dirname(d), "__init__.py")):
+        d = os.path.dirname(d)
+    return d
+
+
+def outparam_ok(tr, tree, path, fdef, pname):
+    fname = fdef.name
+    pindex = [a.arg for a in fdef.args.args].index(pname)
+    nparams = len(fdef.args.args)
+    # no use of the name in any other module of the package (tests excluded)
+    root = package_root(path)
+    for dirpath, dirnames, filenames in os.walk(root):
+        dirnames[:] = [d for d in dirnames if d != "tests"]
+        for fn in filenames:
+            full = os.path.join(dirpath, fn)
+            if not fn.endswith(".py") or os.path.abspath(full) == os.path.abspath(path):
+                continue
+            try:
+                other = ast.parse(open(full).read())
+            except (OSError, SyntaxError):
+                return False
+            for n in ast.walk(other):
+                if ((isinstance(n, ast.Name) and n.id == fname) or (isinstance(n, ast.Attribute) and n.attr == fname)
+                        or (isinstance(n, ast.alias) and (n.name == fname or n.asname == fname))):
+                    return False
+    # every use in its own module is `x = f(.., x, ..)` with x a fresh array of the calling function
+    admitted = set()
+    ncalls = 0
+    for encl in ast.walk(tree):
+        if not isinstance(encl, ast.FunctionDef) or encl is fdef:
+            continue
+        annotated = False
+        for st in ast.walk(encl):
+            if not (isinstance(st, ast.Assign) and isinstance(st.value, ast.Call) and isinstance(st.value.func, ast.Name)
+                    and st.value.func.id == fname):
+                continue
+            c = st.value
+            if (len(st.targets) != 1 or not isinstance(st.targets[0], ast.Name) or c.keywords or len(c.args) != nparams
+                    or any(isinstance(a, ast.Starred) for a in c.args) or not isinstance(c.args[pindex], ast.Name)
+                    or c.args[pindex].id != st.targets[0].id):
+                return False
+            x = st.targets[0].id
+            if any(isinstance(m, ast.Name) and m.id == x for k, a in enumerate(c.args) if k != pindex for m in ast.walk(a)):
+                return False
+            if not annotated:
+                try:
+                    Fresh(tr).block(list(encl.body), {}, frozenset())
+                except Unsupported:
+                    return False
+                annotated = True
+            if getattr(st, "_fresh", {}).get(x) != "array":
+                return False
+            admitted.add(id(c.func))
+            ncalls += 1
+    for n in ast.walk(tree):
+        if isinstance(n, ast.Name) and n.id == fname and id(n) not in admitted:
+            return False
+        if isinstance(n, ast.Attribute) and n.attr == fname:
+            return False
+    return ncalls > 0
 
 
 def literal_val(node):
@@ -1197,7 +1281,15 @@ def translate(path, names):
             if any(isinstance(x, ast.YieldFrom) for x in ast.walk(n)):
                 raise Unsupported("yield from")
             nyield = sum(isinstance(x, ast.Yield) for x in ast.walk(n))
-            Fresh(tr).block([s for s in n.body], {}, frozenset())     # also records the state at each statement
+            # parameters that the function mutates as arrays (p[..] = e) and that are admitted as out-parameters
+            mutated = {x.targets[0].value.id for x in ast.walk(n)
+                       if isinstance(x, ast.Assign) and len(x.targets) == 1 and isinstance(x.targets[0], ast.Subscript)
+                       and isinstance(x.targets[0].value, ast.Name)}
+            outparams = [p_ for p_ in params if p_ in mutated and cls is None and outparam_ok(tr, tree, path, n, p_)]
+            if len(outparams) > 1:
+                raise Unsupported("several out-parameters (they could be the same object)")
+            tr.function = n
+            Fresh(tr).block([s for s in n.body], {p_: "array" for p_ in outparams}, frozenset())     # also records the state at each statement
             body = tr.stmts(n.body)
             if nyield != body.count("SYield "):
                 raise Unsupported("yield used as an expression")
@@ -1231,6 +1323,8 @@ def translate(path, names):
                     exc = x.exc.func if isinstance(x.exc, ast.Call) else x.exc
                     classes.append(exc.id if isinstance(exc, ast.Name) else "?")
             found[qual] += "Definition raises_%s : list string := %s.\n" % (ident, lst([cstr(c) for c in classes]))
+            if outparams:
+                found[qual] += "Definition outparams_%s : list string := %s.\n" % (ident, lst([cstr(c) for c in outparams]))
             if tr.catches:
                 found[qual] += "Definition catches_%s : list string := %s.\n" % (ident, lst([cstr(c) for c in tr.catches]))
             # default values of the trailing parameters (constants only; a function with any other
